@@ -238,6 +238,15 @@ class Tr:
             raise Unsupported(f'attribute {n.attr} of a symbolic value')
         return getattr(base, n.attr)
 
+    def ex_Dict(self, n):
+        d = {}
+        for k, v in zip(n.keys, n.values):
+            kk, vv = self.ex(k), self.ex(v)
+            if z3.is_expr(kk):
+                raise Unsupported('symbolic dict key')
+            d[kk] = vv
+        return d
+
     def ex_Set(self, n):
         elts = [self.ex(e) for e in n.elts]
         if self.universe is None:
@@ -300,8 +309,8 @@ class Tr:
                     raise Unsupported('branch without return')
                 return ('ret', ite(t, a[1], b[1]))
             elif isinstance(st, (ast.FunctionDef, ast.Pass)):
-                if isinstance(st, ast.FunctionDef):
-                    self.env[st.name] = ('localdef', st)
+                if isinstance(st, ast.FunctionDef) and st.name not in self.env:
+                    self.env[st.name] = ('localdef', st)      # a nested helper may be stubbed by pre-populating env[name]
                 continue
             else:
                 raise Unsupported(ast.dump(st)[:120])
@@ -351,6 +360,16 @@ def translate(fn, env, universe=None):
     if r is None:
         raise Unsupported('function without return')
     return r[1]
+
+
+def assigned_expr(fn, target, env, universe=None):
+    """Translate the right-hand side of the (single) assignment to `target` inside fn's body."""
+    node = fn_ast(fn)
+    found = [st for st in ast.walk(node) if isinstance(st, ast.Assign) and len(st.targets) == 1
+             and isinstance(st.targets[0], ast.Name) and st.targets[0].id == target]
+    if len(found) != 1:
+        raise Unsupported(f'{len(found)} assignments to {target}')
+    return Tr(env, universe).ex(found[0].value)
 
 
 def qualname(fn):
